@@ -104,6 +104,7 @@ def run(ctx, clauses=CLAUSES):
                 "n_sols": len(results[0][2][0]["sols"])})
     ctx.sample({"engine": "E2/E3-trace", "event": results[-1][2][0]})
     sc.validate(ctx, results, clauses)
+    sc.replay_known(ctx, ('un',), clauses)
     ctx.stage("trace validation")
 
 
